@@ -208,6 +208,9 @@ class Hook:
                         return NotImplemented
                     out.append((r, s3))
             return out
+        if k == 'Construct' and len(e.get('args', [])) == 1 and e['t']['s'].replace('const ', '').startswith(('Eigen::LDLT<', 'Eigen::LLT<', 'Eigen::PartialPivLU<', 'Eigen::FullPivLU<', 'Eigen::ColPivHouseholderQR<',
+                                                                                                           'Eigen::HouseholderQR<', 'Eigen::FullPivHouseholderQR<')):
+            return [(('decomposition', v), s2) for (v, s2) in rd.ev(e['args'][0], st, ctx)]
         if k == 'Construct' and ', -1, ' in e['t']['s'] and len(e.get('args', [])) == 1:
             return rd.ev(e['args'][0], st, ctx)
         return mat.hook(rd, e, st, ctx)
